@@ -222,6 +222,33 @@ def scheme_magnitudes(rng):
     return [b, list(base[1])]
 
 
+def scheme_big_ratio(rng):
+    """S16: the second half of S14 only -- an inversion cost 2^18 .. 2^20 times the other penalties (costs of the order of
+    1e6 that differ by one unit: relative tolerances of 1e-5 .. 1e-6 confuse them, while every sum stays exact and an ILP
+    solver's absolute tolerances are far below one unit)"""
+    base = [list(v) for v in ref.PRESETS[rng.choice(["unifying", "pseudodistance", "induced", "unifying_half"])]]
+    big = 2.0 ** rng.choice([18, 20])
+    b = list(base[0])
+    b[1] = big
+    if rng.random() < 0.5:
+        b[2] = big
+    return [b, list(base[1])]
+
+
+def scheme_small_unranked(rng):
+    """S17: the penalties of pairs that a ranking really compares (B[1], B[2], T[0], T[1]) are 2^18 .. 2^20 times the
+    penalties of pairs with an unranked element: two placements whose costs differ only through who ranks whom are equal up
+    to a relative 1e-6 and different in fact (all sums exact)"""
+    big = 2.0 ** rng.choice([18, 20])
+    t = rng.choice([0.5, 1.0]) * big
+    b3 = rng.choice([0.0, 0.0, 1.0])
+    b4 = b3 + rng.choice([1.0, 1.0, 2.0])
+    b5 = rng.choice([0.0, 1.0])
+    t34 = rng.choice([0.0, 1.0, 2.0])
+    t5 = rng.choice([0.0, 1.0])
+    return [[0., big, rng.choice([t, big]), b3, b4, b5], [t, t, 0., t34, t34, t5]]
+
+
 def scheme_decimal(rng):
     return scheme_random(rng, grid=DECIMAL)
 
@@ -237,7 +264,7 @@ SCHEME_CLASSES = {
     "S1": scheme_preset, "S2": scheme_preset_multiple, "S3": scheme_random, "S4": scheme_perturbed,
     "S5": scheme_lookalike, "S6": scheme_degenerate, "S7": scheme_decimal, "S8": scheme_threshold,
     "S9": scheme_free_ties, "S10": scheme_near_tie, "S11": scheme_ratio_band, "S12": scheme_extreme_ratio,
-    "S13": scheme_big_t5, "S14": scheme_magnitudes, "S15": scheme_unranked_pairs,
+    "S13": scheme_big_t5, "S14": scheme_magnitudes, "S15": scheme_unranked_pairs, "S16": scheme_big_ratio, "S17": scheme_small_unranked,
 }
 
 
@@ -273,7 +300,7 @@ def element_names(rng, n, kind=None):
     strings), mixed_str (words, some digit strings together with words)"""
     if kind is None:
         kind = rng.choice(["int", "int", "bigint", "str", "str", "intlike", "mixed_str", "digits_plus_word", "negint",
-                           "hugeint", "comma_space"])
+                           "hugeint", "comma_space", "almost_int"])
     if kind == "int":
         base = rng.choice([0, 0, 1, 5])
         names = list(range(base, base + n))
@@ -288,6 +315,17 @@ def element_names(rng, n, kind=None):
         # names that contain the separators used when a bucket is printed: different rankings can print identically
         pool = ["x", "x, x", "x, x, x", "a", "b", "a, b", "b, a", "c}, {d", "c", "d"]
         names = rng.sample(pool, min(n, len(pool)))
+    elif kind == "almost_int":
+        # strings that look like integers to one test and not to another: a sign, an underscore, a blank, a leading zero,
+        # a superscript digit (str.isdigit() is True, int() fails), digits of other scripts (int() reads them), hex / float
+        # notations.  The int values of the convertible ones are pairwise distinct.  A dataset holds ints only when EVERY name
+        # is a string of decimal digits; otherwise every name stays the string it is
+        pool = ["+2", "-3", "1_0", "3 ", " 4", "07", "\u00b2", "\u0665", "\uff11\uff12", "6", "8", "0x1", "1e1", "9", "11"]
+        names = rng.sample(pool, min(n, len(pool)))
+        if rng.random() < 0.35:
+            # only strings of decimal digits (of any script): the dataset becomes integer-typed
+            dec = [x for x in pool if x.isdecimal()]
+            names = rng.sample(dec, min(n, len(dec)))
     elif kind == "negint":
         names = rng.sample(range(-8 - n, 12 + n), n)
     elif kind == "hugeint":
@@ -737,6 +775,17 @@ def _dataset(rng, cls, n, m, names, nmax, mmax):
             if not any(a in bk for r in out for bk in r):
                 out.append([[a, b]])
             ds = out
+        return ds
+    if cls == "D25":     # every pair is inverted as often as not (a ranking and its reverse, k times each) and a few partial
+        # rankings rank one element of a pair and not the other: the cheapest placement of the pair is decided by the
+        # penalties for unranked elements alone, on top of equal (possibly large) costs
+        k = rng.choice([1, 1, 2])
+        base = ranking_over(rng, names, rng.choice([0.0, 0.0, 0.3]))
+        ds = [[list(b) for b in base] for _ in range(k)] + [[list(b) for b in reversed(base)] for _ in range(k)]
+        for _ in range(rng.choice([1, 2, 3])):
+            sub = [e for e in names if rng.random() < 0.6] or [names[0]]
+            ds.append(ranking_over(rng, sub, rng.choice([0.0, 0.5, 1.0])))
+        rng.shuffle(ds)
         return ds
     if cls == "D23":     # ordered blocks of 2-4 elements; for each block a voter either ranks it (a rotation of one order),
         # ties it entirely, or misses it entirely: whether the block is best tied or ordered then hinges on how many
